@@ -186,6 +186,7 @@ func genCommon(t *rapid.T, mode string) Case {
 	c.Used = rapid.IntRange(0, 2).Draw(t, "used") == 0
 	if rapid.IntRange(0, 3).Draw(t, "writer-to-source-fails") == 0 {
 		c.SrcFail = 1 + rapid.IntRange(0, len(txt)).Draw(t, "source-fails-after")
+		c.SrcErr = rapid.SampledFrom([]string{"", "unexpected-eof"}).Draw(t, "source-error")
 	}
 	return c
 }
@@ -452,6 +453,13 @@ func Classify(c Case) (bool, []string) {
 		add("io.WriterTo source reports an error")
 		nt = true
 	}
+	if c.SrcFail > 0 && (c.Mode == "consume" || c.Mode == "agree" || c.Mode == "produce" && (c.Kind == kCSV && c.Rich || c.Kind == kStream)) {
+		add("the stream that is read from reports an error before its end")
+		if c.SrcErr != "" {
+			add("the stream fails with io.ErrUnexpectedEOF")
+		}
+		nt = true
+	}
 	return nt, labels
 }
 
@@ -465,5 +473,6 @@ func Props() []kit.Runner {
 			Quick: 40000, Thorough: 500000, Gen: GenProduce, Check: Check, Classify: Classify},
 		kit.Prop[Case]{ID: "C16", Name: "agree", Rule: "all 8 destination kinds and all 8 source kinds on the same input, then each produced text into all 8 destination kinds: " + rule,
 			Quick: 5000, Thorough: 50000, Gen: GenAgree, Check: Check, Classify: Classify},
+		largeProp(),
 	}
 }
